@@ -326,10 +326,6 @@ package tq
 //@   assumed
 //@   props C02 C09
 //@   modifies fresh
-//@ func verifyUpload
-//@   assumed
-//@   props C02 C09
-//@   modifies fresh
 
 // C03: local completeness check of uploads.  Of the transfers the server asks
 // for, exactly those whose object file exists with the recorded size are
@@ -376,3 +372,26 @@ package tq
 //@   assumed
 //@   props C15
 //@   modifies fresh, fields q
+
+// C18: the verify call-back after an upload.  Without a "verify" action nothing
+// is sent; otherwise one POST to exactly the offered href, announcing and
+// accepting the LFS media type, with every header of the action applied.
+//@ func verifyUpload
+//@   props C18
+//@   requires @inv c != nil && t != nil
+//@   at call http.NewRequest:1 assert action != nil && arg0__ == "POST" && arg1__ == action.Href
+//@   loop 2 iter has(req.Header, str_canon(key)) && req.Header[str_canon(key)][0] == value
+//@   at call (*lfsapi.Client).LogRequest:1 assert arg1__.Method == "POST" && arg1__.URL == url_parsed(action.Href) && has(arg1__.Header, "Accept") && has(arg1__.Header, "Content-Type")
+//@   loop 2 invariant req != nil && req.Header != nil && has(req.Header, "Accept") && has(req.Header, "Content-Type") && req.Method == "POST" && req.URL == url_parsed(action.Href)
+//@ func github.com/git-lfs/git-lfs/v3/lfsapi.MarshalToRequest
+//@   assumed
+//@   props C18
+//@   modifies fresh, mapkey req.Header["Content-Length"], field req.ContentLength, field req.Body
+//@ func (*github.com/git-lfs/git-lfs/v3/lfsapi.Client).Do
+//@   assumed
+//@   props C18
+//@   modifies fresh
+//@ func (*github.com/git-lfs/git-lfs/v3/lfsapi.Client).DoWithAuth
+//@   assumed
+//@   props C18
+//@   modifies fresh
